@@ -100,6 +100,8 @@ FIRST_MISSED = {
     "C12-10": "no check reported it -> EXIT: every blocking wait of the two handshakes (and their reader goroutines) has a ctx.Done() or timer case",
     "C20-10": "no check reported it -> TMO-3: a sample is consumed only by the message type that answers the sampled one (SYN time: SYN/SYNACK; DATA send time: ACK)",
     "C17-9": "no check reported it -> CODEC-SIB: the pairing phrase is cut at every separator (strings.Split/Fields over the whole phrase) and copied into the word array",
+    "C03-12": "no check reported it -> NONCE/HSK-ORDER ruleKeySchedule: InitializeKey is called from the key schedule only (InitializeKeyWithSalt, rotateKey, mixKey, InitializeSymmetric)",
+    "C11-12": "own property silent (reported by C05 LOCKBAL) -> C11 shares LOCKBAL",
     "C06-3": "no check reported it -> RATELIMIT: once lastResend is refreshed the packets are transmitted",
 }
 
